@@ -11,4 +11,5 @@ pub mod expr_spec;
 pub mod stmt_spec;
 pub mod stmt_gen;
 pub mod stmt_params;
+pub mod stmt_ref;
 pub mod props;
